@@ -278,7 +278,11 @@ def run_config_sym(name, fn, kw, tier, seed, opts):
     t0 = time.time()
     res = dict(name=name, status='ok')
     if not opts.get('no_proxy'):
+        import skfem  # noqa: F401  (all modules imported before their `np` is replaced)
         symnp.install()
+        from . import stubs_misc
+        for st in stubs_misc.install_all():
+            h.stub(st)
     Ctx.snap = opts.get('snap', True)
 
     def body(ex_):
@@ -395,6 +399,40 @@ def replay_subprocess(module, cfgname, env, tier, seed, timeout=600):
         if line.startswith('REPLAY-RESULT '):
             return json.loads(line[len('REPLAY-RESULT '):])
     return dict(status='replay-crashed', failed=[], stderr=p.stderr[-2000:])
+
+
+def _cvc5_worker(conn, texts, ms):
+    out = []
+    for t_ in texts:
+        try:
+            out.append(smt.cvc5_check(t_, ms))
+        except Exception as e:   # noqa
+            out.append('error:%s' % type(e).__name__)
+        conn.send(out[-1])
+    conn.close()
+
+
+def _cvc5_batch(texts, ms, hard_s):
+    """cvc5 second opinion in a child process with a hard wall-clock cap (cvc5 may overrun tlimit-per)."""
+    ctx = mp.get_context('fork')
+    pc, cc = ctx.Pipe(duplex=False)
+    p = ctx.Process(target=_cvc5_worker, args=(cc, texts, ms))
+    p.start()
+    cc.close()
+    res = []
+    t0 = time.time()
+    while len(res) < len(texts) and time.time() - t0 < hard_s:
+        if pc.poll(0.2):
+            try:
+                res.append(pc.recv())
+            except EOFError:
+                break
+        elif not p.is_alive():
+            break
+    if p.is_alive():
+        p.kill()
+    p.join()
+    return res + ['unknown'] * (len(texts) - len(res))
 
 
 def load_known():
@@ -587,21 +625,22 @@ def main(prop, module, build_configs, meta):
                 harness_errors.append('NONREPRODUCING counterexample %s/%s (%s)' % (c['name'], cd['key'], rr.get('status')))
 
     # ---- second-opinion sample with cvc5 -----------------------------------------------------------
-    xc = dict(checked=0, agree=0, cvc5_unknown=0, disagree=0)
+    xc = dict(checked=0, agree=0, cvc5_unknown=0, disagree=0, skipped_too_large=0)
     if not os.environ.get('VERIF_NO_CVC5'):
-        try:
-            for text, verdict in smt2s[:meta.get('cvc5_sample', 12)]:
-                r5 = smt.cvc5_check(text, 8000)
+        small = [(t_, v_) for t_, v_ in smt2s if len(t_) < 30000]
+        xc['skipped_too_large'] = len(smt2s) - len(small)
+        todo = small[:meta.get('cvc5_sample', 12)]
+        if todo:
+            r5s = _cvc5_batch([t_ for t_, _ in todo], 5000, 60)
+            for (text, verdict), r5 in zip(todo, r5s):
                 xc['checked'] += 1
-                if r5 == 'unknown':
+                if r5 not in ('sat', 'unsat'):
                     xc['cvc5_unknown'] += 1
                 elif r5 == verdict:
                     xc['agree'] += 1
                 else:
                     xc['disagree'] += 1
                     harness_errors.append('z3/cvc5 disagree on a sampled query (%s vs %s)' % (verdict, r5))
-        except Exception as e:   # cvc5 not importable etc.: recorded, not fatal
-            xc['error'] = '%s: %s' % (type(e).__name__, e)
 
     wall = time.time() - t0
     seenk = set()
